@@ -7,6 +7,8 @@
 //	ell2                                 Elligator 2 (montgomeryFlavor through the hook, EdwardsFlavor) on the field alphabet
 //	uniform-nu, uniform-ro               hash_to_field + map + cofactor clearing on crafted uniform bytes (hook)
 //	suite/<function>                     the exported suite functions on the (DST, message) grid
+//	xmd-sweep/<hash>, xof-sweep/<xof>,   EVERY message length 0..400 (thorough 0..1100) x 13 DST lengths x output lengths {48, 64, 96};
+//	suite-sweep/<function>               five suite functions on every message length 0..300 (600) with the ECVRF DST and the RFC's J.5 DST
 //
 // Oracle: package refh2c (RFC 9380 written literally with math/big).
 package main
@@ -108,6 +110,7 @@ func run(c *mc.Ctx) {
 	timed("uniform", func() { runUniform(c) })
 	// the DST/message framing is enumerated in xmd/xof; the suites get the core DST alphabet in both tiers
 	timed("suite", func() { runSuites(c, byteStrings(c.Seed, "dst", []int{1, 16, 254, 255, 256, 257, 1000})) })
+	timed("sweep", func() { runSweeps(c) })
 	c.Rep.Extra["wall_s_by_group"] = timing // informational only; no verdict depends on it
 
 	// Which exceptional inputs exist at all is a fact about the curve constants, established on the reference side:
